@@ -17,22 +17,22 @@ use std::process::{Child, Command, Stdio};
 use std::sync::Arc;
 use std::time::{Duration, Instant};
 
-const CERTS: &str = "/verif/target/certs";
+pub(super) const CERTS: &str = "/verif/target/certs";
 
-fn free_tcp() -> u16 {
+pub(super) fn free_tcp() -> u16 {
     std::net::TcpListener::bind("127.0.0.1:0").unwrap().local_addr().unwrap().port()
 }
-fn free_udp() -> u16 {
+pub(super) fn free_udp() -> u16 {
     UdpSocket::bind("127.0.0.1:0").unwrap().local_addr().unwrap().port()
 }
 
-struct Px {
+pub(super) struct Px {
     child: Child,
     dir: String,
     http: u16,
 }
 impl Px {
-    fn start(tag: &str, listeners: &str, connectors: &str, http: u16) -> Px {
+    pub(super) fn start(tag: &str, listeners: &str, connectors: &str, http: u16) -> Px {
         let bin = std::env::var("VERIF_REPO_BIN").unwrap_or("/verif/target/repo-bin/debug/redproxy-rs".into());
         let dir = format!("/verif/target/e4/c05q-{}-{}-{}", std::process::id(), tag, http);
         std::fs::create_dir_all(&dir).unwrap();
@@ -56,10 +56,10 @@ impl Px {
         }
         px
     }
-    fn exited(&mut self) -> Option<String> {
+    pub(super) fn exited(&mut self) -> Option<String> {
         self.child.try_wait().ok().flatten().map(|s| format!("{s:?}"))
     }
-    fn log(&self) -> String {
+    pub(super) fn log(&self) -> String {
         let s = std::fs::read_to_string(format!("{}/log", self.dir)).unwrap_or_default();
         s.chars().rev().take(400).collect::<String>().chars().rev().collect()
     }
@@ -92,7 +92,7 @@ fn rpfm(session: u32, addr: &[u8], body: &[u8]) -> Vec<u8> {
     v
 }
 
-async fn read_head(r: &mut quinn::RecvStream) -> Option<String> {
+pub(super) async fn read_head(r: &mut quinn::RecvStream) -> Option<String> {
     let mut head = vec![];
     let mut b = [0u8; 1];
     while !head.ends_with(b"\r\n\r\n") {
